@@ -55,6 +55,8 @@ func (m *Machine) harnessAPI(fn *ssa.Function, a []Value) (Value, bool) {
 			return "", true
 		}
 		return string(b), true
+	case "vfScratchFile":
+		return Pointer{C: m.newCell(&Native{Kind: "file"})}, true
 	case "vfItoa":
 		return fromTerm(FromInt(toTerm(a[0]))), true
 	case "vfOr":
